@@ -4281,3 +4281,43 @@ def tab12(ctx):
             r.report("TAB-12|%s" % short, fn_loc(b), path,
                      "a literal without modifiers is not compared with the segment as a whole: the comparison leaves out %s, so phones that differ only there are one phone to the matcher -- `ħ > x` rewrites `ʜa` to `xa` (ħ/ʜ and ʕ/ʢ differ only in the pharyngeal sub-node)" % ", ".join(missing))
     return r
+
+
+# ---------------------------------------------------------------- FLW-16: the surplus elements are those without a counterpart
+
+def flw16(ctx):
+    """`a b c > x` rewrites a by x and deletes b and c. SubRule::substitution pairs input element i with output element i
+    in its main loop; afterwards the surplus is handled by a tail loop: outputs without an input are inserted
+    (`self.output.iter().skip(self.input.len())`), inputs without an output are deleted -- and those are the inputs from
+    index `self.output.len()` on. The two tail loops are mirror images: each skips exactly the length of the OTHER list."""
+    r = RuleResult("FLW-16", "SubRule::substitution: the tail loop over surplus outputs skips input.len(), the tail loop over surplus inputs skips output.len() (each skips the length of the other list, nothing else)", floor=2)
+    lib = ctx.lib
+    b = ctx.fn(lib, "asca::subrule::SubRule::substitution")
+    root = b.hir["body"]
+    ev = _CaretEval(lib)
+    env = ev.env_of(root)
+    n = 0
+    for x in hirq.walk(root):
+        if x["e"] != "mcall" or x["name"] != "skip" or not x["args"]:
+            continue
+        # what is iterated: strip adaptors down to the list
+        base = hirq.strip(x["recv"])
+        while isinstance(base, dict) and base.get("e") == "mcall" and base["name"] in ("iter", "into_iter", "iter_mut", "enumerate", "copied", "cloned", "rev"):
+            base = hirq.strip(base["recv"])
+        bname = ev.canon(base, {})
+        which = "output" if bname.endswith(".output") else "input" if (bname.endswith(".input") or bname.split("#")[0] == "input") else None
+        if which is None:
+            continue
+        n += 1
+        w = ev.num(x["args"][0], env)
+        other = "input" if which == "output" else "output"
+        atoms = {a_: c for a_, c in w.atoms.items() if c}
+        ok = w.const == 0 and len(atoms) == 1 and list(atoms.values())[0] == 1 and (".%s.len()" % other) in list(atoms)[0]
+        form = " + ".join(("%s" % a_ if c == 1 else "%d*%s" % (c, a_)) for a_, c in sorted(atoms.items())) + (" + %d" % w.const if w.const else "")
+        r.inst("substitution: the tail loop over the surplus %ss skips %s" % (which, form or "0"), fn_loc(b, x.get("ln")), "ok" if ok else "report")
+        if not ok:
+            r.report("FLW-16|substitution|surplus-%s" % which, fn_loc(b, x.get("ln")), b.path,
+                     "the tail loop over the surplus %s elements starts at `%s` instead of at the number of %s elements: the main loop has paired element i with element i, so with `a b c > x` only c is deleted (`abcd` becomes `xbd`), and with `a b c > x y` the y just written is deleted again (`xd`)" % (which, form or "0", other))
+    if n < 2:
+        raise AnchorMissing("FLW-16: %d `skip(..)` tail loops over the rule's input / output found in substitution (expected 2)" % n)
+    return r
